@@ -53,7 +53,7 @@ def build_all(res):
         problems.append(("translator:a-dispatch-ladder-of-gemm/gemv/syrk/herk/trsm.hpp-is-no-longer-in-the-table-grammar", msg_t))
     coq = core.coq_check_property(PID)
     core.proof_coverage(res, coq)
-    ok_d, log_d = core.ensure_driver_for("c13", "ExtractC13.v", ["c13_zu.ml", "c13_level1.ml", "c13_level3.ml", "c13_driver.ml"], "driver_c13",
+    ok_d, log_d = core.ensure_driver_for("c13", "ExtractC13.v", ["c13_zu.ml", "c13_expr.ml", "c13_level1.ml", "c13_level3.ml", "c13_driver.ml"], "driver_c13",
                                          model_base="modelc13")
     if not ok_d:
         problems.append(("build:model-extraction-or-driver", log_d))
@@ -133,12 +133,28 @@ def analyse(mode, prog_text, impl_text, model_text, crashes, dbg_outcomes=None):
             recs.append(dict(base, kind="wrong", detail="the process running the case died: " + " ".join(x.split()[2:]), model="", impl=x))
             continue
         # (1) correspondence: the calls that reached BLAS and how the adaptor call ended
-        ik = [l for l in il if l[:2] in ("K ", "O ")]
-        mk = [l for l in ml if l[:2] in ("K ", "O ")]
+        # (W lines, expression cases: the decorated operand views as the library's view machinery / the model's decos_mat report them)
+        ik = [l for l in il if l[:2] in ("W ", "K ", "O ")]
+        mk = [l for l in ml if l[:2] in ("W ", "K ", "O ")]
+        # the predicted call was made (same K lines) and the model expects the statement to complete, but the process aborted
+        # AFTER the forwarded BLAS call: glibc detected a corrupted heap when the freshly built result was released, i.e. the
+        # call wrote outside the output.  That is a wrong behaviour of the call (kind "wrong": at crit = 1 never maskable),
+        # not a disagreement about which call is made.
+        # a record of the harness that is no longer printable text was overwritten in memory: the call wrote outside its output
+        if any((not ch.isprintable()) and ch not in "\n\r\t" for l in ik for ch in l):
+            recs.append(dict(base, kind="wrong", detail="the harness' own record of the call was overwritten in memory (cells outside the output were written)",
+                             model="", impl=repr(next(l for l in ik if any((not ch.isprintable()) and ch not in "\n\r\t" for ch in l)))[:200]))
+            continue
+        i_k, m_k = [l for l in ik if l[:2] == "K "], [l for l in mk if l[:2] == "K "]
+        if (ik != mk and i_k and i_k == m_k and [l for l in ik if l[:2] == "W "] == [l for l in mk if l[:2] == "W "]
+                and of.get("outcome") == "abort" and any(l.startswith("O ") and "outcome=ok" in l for l in mk)):
+            recs.append(dict(base, kind="wrong", detail="the process aborted after the BLAS call (heap corruption: cells outside the output were written)",
+                             model="", impl=o))
+            continue
         if ik != mk:
             a = next((x for x, y in zip(mk, ik) if x != y), mk[len(ik)] if len(mk) > len(ik) else "<nothing>")
             b = next((y for x, y in zip(mk, ik) if x != y), ik[len(mk)] if len(ik) > len(mk) else "<nothing>")
-            recs.append(dict(base, kind="correspondence", detail="model and library disagree on the BLAS call / outcome", model=a, impl=b))
+            recs.append(dict(base, kind="correspondence", detail="model and library disagree on the BLAS call / outcome / decorated view", model=a, impl=b))
         if "harness-error" in o or "model-error" in "".join(mk):
             recs.append(dict(base, kind="harness", detail=o, model="".join(mk), impl=o))
             continue
@@ -202,6 +218,84 @@ def _z(n):
     return "(%d)" % int(n)
 
 
+DECO = {"N": "DcN", "T": "DcT", "t": "DcT", "J": "DcJ", "j": "DcJ", "H": "DcH"}
+
+
+def _decos(ds):
+    return "[" + "; ".join(DECO[c] for c in ds if c in DECO) + "]"
+
+
+def _g(pair, real_only=False):
+    re_, im_ = pair.split(",")
+    return "(%s, %s)" % (_z(re_), _z(0 if real_only else im_))
+
+
+def _transposes(ds):
+    return sum(1 for c in ds if c in "THt") % 2 == 1
+
+
+def _expr_term(routine, q, il, mats, vecs, debug):
+    """The Coq term whose vm_compute value the extracted model printed on its C line, for an expression case."""
+    t = next((fields(l) for l in il if l.startswith("T ")), None)
+    if t is None:
+        return None
+    dashes = lambda v: "" if v in (None, "-") else v
+    cplx = "true" if q[3] in ("c", "z") else "false"
+    alpha = after_eq(q[6])
+    cons = "CsPlusAssign" if t.get("consume") in ("pluseq", "arr_pluseq") else "CsAssign"
+    fresh = lambda n: _z(8000000 if n == 0 else 4000000)
+    dims = {}
+    for l in il:
+        p = l.split()
+        if p[0] == "D" and len(p) == 9:
+            dims[p[2]] = (int(p[6]), int(p[7]))
+    if routine == "gemm" and "A" in mats and "B" in mats:
+        star = t.get("base") == "star"
+        da, db, dc = dashes(t.get("dA")), dashes(t.get("dB")), dashes(t.get("dC"))
+        opa = "(mk_operand %s %s)" % (_decos(da), mats["A"])
+        opb = "(mk_operand %s %s)" % (_decos(db), mats["B"])
+        e = "(GxStar gI %s %s)" % (opa, opb) if star else "(GxGemm gI %s %s %s)" % (_g(alpha), opa, opb)
+        sc = dashes(t.get("scales"))
+        for f in (sc.split(";") if sc else []):
+            e = "(GxScale gI %s %s)" % (_g(f, real_only=star), e)
+        m = dims["A"][1] if _transposes(da) else dims["A"][0]
+        n = dims["B"][0] if _transposes(db) else dims["B"][1]
+        c = t.get("consume")
+        if c in ("assign", "assign_rv", "pluseq"):
+            if "C" not in mats:
+                return None
+            target = "(GtView (mk_operand %s %s))" % (_decos(dc), mats["C"])
+        elif c in ("construct", "plus"):
+            target = "(GtFresh %s)" % fresh(m * n)
+        else:
+            r0, c0 = [int(x) for x in t.get("arr", "0x0").split("x")]
+            target = "(GtArray %s %s %s %s)" % (_z(8000000 if r0 * c0 == 0 else 3000000), _z(r0), _z(c0), fresh(m * n))
+        return "gplan_code (gcompile gI (0, 0) (1, 0) gI_mul %s %s (mk_gstmt gI %s %s %s))" % (cplx, debug, target, cons, e)
+    if routine == "gemv" and "M" in mats and "X" in vecs:
+        dm = dashes(t.get("dM"))
+        opm = "(mk_operand %s %s)" % (_decos(dm), mats["M"])
+        base = t.get("base")
+        e = ("(VxScaledPct gI %s %s %s)" % (_g(alpha), opm, vecs["X"]) if base == "pct_scaled"
+             else "(VxPct gI %s %s)" % (opm, vecs["X"]) if base == "pct" else "(VxGemv gI %s %s %s)" % (_g(alpha), opm, vecs["X"]))
+        rows = dims["M"][1] if _transposes(dm) else dims["M"][0]
+        c = t.get("consume")
+        if c in ("assign", "assign_rv", "pluseq"):
+            if "Y" not in vecs:
+                return None
+            target = "(VtView %s)" % vecs["Y"]
+        elif c in ("construct", "plus"):
+            target = "(VtFresh %s)" % fresh(rows)
+        else:
+            n0 = int(t.get("arr", "0"))
+            target = "(VtArray %s %s %s)" % (_z(8000000 if n0 == 0 else 3000000), _z(n0), fresh(rows))
+        return "vplan_code (vcompile gI (0, 0) (1, 0) %s %s (mk_vstmt gI %s %s %s))" % (cplx, debug, target, cons, e)
+    return None
+
+
+def after_eq(w):
+    return w.split("=", 1)[1] if "=" in w else w
+
+
 def vm_compute_crosscheck(impl_text, model_text, sample):
     """Re-evaluate a sub-sample of gemm / gemv cases with `Eval vm_compute` inside coqc and compare the verdict with what the
     EXTRACTED model printed (C lines).  Returns (number compared, list of (case id, coq, ocaml))."""
@@ -209,7 +303,7 @@ def vm_compute_crosscheck(impl_text, model_text, sample):
     ids = [cid for cid, ml in model.items() if any(l.startswith("C ") for l in ml)]
     ids.sort(key=lambda c: hashlib.sha256(c.encode()).hexdigest())
     ids = ids[:sample]
-    lines = ["From Coq Require Import ZArith List Bool.", "From BM Require Import Model.BlasC13 Model.BlasC13Code.",
+    lines = ["From Coq Require Import ZArith List Bool.", "From BM Require Import Model.BlasC13 Model.BlasC13Expr Model.BlasC13Code.", "Import ListNotations.",
              "Local Open Scope Z_scope."]
     order = []
     for cid in ids:
@@ -225,7 +319,12 @@ def vm_compute_crosscheck(impl_text, model_text, sample):
                 mats[p[2]] = "(mk_mat %s %s %s %s %s %s)" % (_z(_addr(p[3])), _z(p[4]), _z(p[5]), _z(p[6]), _z(p[7]), "true" if p[8] == "1" else "false")
             if p[0] == "V" and len(p) == 7:
                 vecs[p[2]] = "(mk_vec %s %s %s %s)" % (_z(_addr(p[3])), _z(p[4]), _z(p[5]), "true" if p[6] == "1" else "false")
-        if routine == "gemm" and all(k in mats for k in "ABC"):
+        if form == "expr":
+            term = _expr_term(routine, q, il, mats, vecs, debug)
+            if term:
+                lines.append("Eval vm_compute in (%s)." % term)
+                order.append(cid)
+        elif routine == "gemm" and all(k in mats for k in "ABC"):
             f = "gemm_inplace" if form == "inplace" else "gemm_lazy"
             lines.append("Eval vm_compute in (final_code (%s %s %s %s %s))." % (f, debug, mats["A"], mats["B"], mats["C"]))
             order.append(cid)
@@ -360,7 +459,7 @@ def run(tier, seed, replay=None):
         recs_by_mode[mode] = recs
         n_obs += sum(1 for l in model.splitlines() if l[:2] in ("K ", "O "))
         if mode == "dbg":
-            vm_n, vm_bad = vm_compute_crosscheck(impl, model, 150 if tier == "quick" else 800)
+            vm_n, vm_bad = vm_compute_crosscheck(impl, model, 200 if tier == "quick" else 1000)
     n_bad, stats = report(res, exes, prog_text, recs_by_mode, sites)
     for cid, coq_v, oc_v in vm_bad[:3]:
         path = core.write_replay(PID, dict(core.split_cases(prog_text)).get(cid, ""), {
@@ -389,7 +488,17 @@ def run(tier, seed, replay=None):
                 "double with every conjugation pattern of A and B on a third of the size triples), (b) random gemm cases over element types "
                 "s/d/z, forms in-place / view assignment / += / construction / unary + / operator*, sizes 0.. with 0 and 1 favoured, "
                 "strided rows, column-strided (must be rejected) and conjugated outputs, (c) gemv over all layouts x vector kinds x sizes "
-                "0..3 and random, (d) level-1 routines; every case is run in an assertion-enabled and in an NDEBUG build (evaluations counts "
+                "0..3 and random, (d) level-1 routines, (e) the expression layer: random trees  target (= | +=) f_k * ... f_1 * (blas::gemm(s, a, b) | a * b)  "
+                "with 0-3 nested scalings (real and complex, 0 and 1 included), operands decorated by strings of 0-3 of blas::N/T/J/H, ~, unary * "
+                "(left to right, so H(H(a)), J(H(a)), T(T(a)) occur), index bases on the operand views, targets = strided / padded / transposed views "
+                "(= from lvalue and rvalue, +=), constructed arrays, unary +, and multi::array targets whose extensions equal the result's, have the "
+                "same number of elements (reshape) or differ (re-allocation), sizes 0.. with 0 and 1 favoured; gemv the same with blas::gemv(s, m, x), "
+                "(aa * m) % x, m % x; axpy_range (+=, -=, *= chains), scaled, y += x, y -= x, axpy(x, y), x + y, x - y; dot_ref (unary +, (x, y), nested "
+                "f * dot, ==, element assignment); x *= scal(a), scal(a, first, last), y << x; +nrm2(x), abs(x), norm(x); trsm(side, fill, alpha, a, b), trsm(side, alpha, U|L(a), b), "
+                "b /= U|L(a), b |= U|L(a); herk / syrk (fill, alpha, a, c), herk(a, c), herk(alpha, a), herk(a); in these cases the model is the EXTRACTED "
+                "expression compiler of Model/BlasC13Expr.v over the Gaussian integers: its decorated views (W lines), scalars and calls are compared with "
+                "what the library's view machinery and the interposed BLAS calls show, and the results with naive loops that read the raw buffers and "
+                "interpret the decorations themselves; every case is run in an assertion-enabled and in an NDEBUG build (evaluations counts "
                 "both); non-trivial = no operand is empty; distinct = by hash of the case text without the data seeds",
         "samples": samples,
         "generator_distribution": dist,
@@ -399,8 +508,17 @@ def run(tier, seed, replay=None):
         "dispatch_sites": sites,
         "translator": b["translator_msg"],
         "vm_compute_crosschecked_cases": vm_n,
-        "not_exercised": ["gemm for std::complex<float> (ill-formed at the pinned commit: core.hpp:530)", "trsm with both operands conjugated (ill-formed: trsm.hpp:107)", "the lazy herk_range form herk(fill, alpha, a)",
-                          "operands that alias the output", "negative strides (reversed views)"],
+        "not_exercised": ["gemm for std::complex<float> (ill-formed at the pinned commit: core.hpp:530)", "trsm with both operands conjugated (ill-formed: trsm.hpp:107)",
+                          "the lazy herk_range form herk(fill, alpha, a) (no consumer reaches BLAS: herk.hpp:52-106 has only begin/end/size)",
+                          "operands that alias the output", "negative strides (reversed views)",
+                          "expression spellings that do not compile at the pinned commit: y -= blas::gemv(..) (README.md:285, no operator-=), "
+                          "(aa * m) % x under `using namespace blas::operators` (only with `using blas::operators::operator*`), a ^ blas::H and x ^ 2 and "
+                          "x ^ y once swap.hpp is included (ambiguous / ill-formed operator^), blas::axpy(a, x) with a non-const x (picks axpy(x, y)), "
+                          "complex f * (a * b) (the scalar type of a * b is double), asum(x) / +asum(x) and the asum-based operators (asum.hpp:48), "
+                          "herk(a, c) / herk(a) for complex<float> (double 1.0 as alpha)",
+                          "y = blas::axpy(a, x) (copy_n of an axpy_range ACCUMULATES into y: axpy.hpp:89-92; undocumented, no mathematical reading fixed)",
+                          "c += range / y += range with a target of another shape (gemm.hpp:296, gemv.hpp:153: no size check at all)",
+                          "index bases on vector operands and on the operands of the level-1 / trsm / herk forms"],
     })
     res.assumptions = ["OpenBLAS implements the reference semantics written in Model/BlasC13Ref.v (sampled by the exact integer comparisons)",
                        "no 64-bit overflow; the adaptor's 64-bit integer arguments are read as 32-bit by LP64 OpenBLAS (little endian)",
